@@ -79,6 +79,12 @@ impl Engine for C05 {
     fn enumerate(&self, tier: Tier, emit: &mut dyn FnMut(&str)) {
         // the deep space runs in a few seconds, so the quick tier uses it; thorough goes one level deeper
         libspace::enumerate_level(if tier == Tier::Thorough { 2 } else { 1 }, &[""], &mut |c| emit(&c.to_string()));
+        // the deep space once more on a graph in which every note has been updated with its own text
+        libspace::enumerate_level(1, &[""], &mut |c| {
+            if c.title == "plain" && (c.others == "titled" || c.others == "back") {
+                emit(&format!("{}|pre=touch", c.to_string()))
+            }
+        });
     }
     fn features(&self, case: &str) -> Vec<String> {
         LibCase::parse(case).features()
@@ -91,7 +97,17 @@ impl Engine for C05 {
         let mut failures: Vec<Failure> = vec![];
         let mut tr = 0u64;
         let state = to_state(&lib);
-        let g = match guarded(|| Graph::import(&state, opts(""))) {
+        // `|pre=touch`: a long-lived graph - every note has been sent once more, unchanged
+        let touched = case.contains("|pre=touch");
+        let g = match guarded(|| {
+            let mut g = Graph::import(&state, opts(""));
+            if touched {
+                for (k, t) in &lib {
+                    g.update_key(k.as_str().into(), t);
+                }
+            }
+            g
+        }) {
             Ok(g) => g,
             Err(_) => return CaseResult { outcome: "panic-skip".into(), ..Default::default() },
         };
